@@ -158,7 +158,9 @@ class RORun:
         ghosts = ()
         if self.variant == "mem":
             ghosts = (tuple(sorted(self.be.mementos)), tuple(sorted(self.be.metadata)))
-        return (cache, ghosts)
+        from ..core import object_state
+
+        return (cache, ghosts, object_state(self.be, roots=self.roots))
 
     def step(self, op):
         from ..fixtures import store as fx
